@@ -11,7 +11,9 @@ import z3
 
 from .values import SV, Loc, Unsupported, lift, fresh, simp, sort_of, kind_name, RecType, concrete_of, IntSeq
 
-ROOTS = ('/repo/', '/verif/spec/', '/verif/contracts/')
+import os as _os
+REPO_ROOT = _os.path.realpath(_os.environ.get('PYVC_REPO', '/repo')) + '/'
+ROOTS = (REPO_ROOT, '/verif/spec/', '/verif/contracts/')
 MAX_LEN = 2 ** 62      # typing fact: no Python sequence is longer than sys.maxsize
 
 
